@@ -603,7 +603,7 @@ func c13DriveBatch(r *verifkit.Run, sp *c13Spawn, tag, corpus, outp, alog string
 	final := func(out []byte, i int) bool { return len(out) == 2*n && out[2*i] != 0 && out[2*i] != c13InProgress }
 	recycle := fmt.Sprintf("exit status %d", c13ExitRecycle)
 	start := 0
-	spawns, unattributed := 0, 0
+	spawns, unattributed, addressSpaceRestarts := 0, 0, 0
 	for start < n {
 		spawns++
 		exit, stderrTxt := sp.run(fmt.Sprintf("%s-%d", tag, spawns), corpus, outp, alog, start, 0, sp.batchTimeout)
@@ -675,6 +675,13 @@ func c13DriveBatch(r *verifkit.Run, sp *c13Spawn, tag, corpus, outp, alog string
 			if len(outC) == 2*n && outC[2*i] == c13InProgress {
 				class = "after-earlier-packets-" + c13CrashClass(exitC, stderrC)
 				exit, stderrTxt = exitC, stderrC
+			} else if m := c13OOMBlockRe.FindStringSubmatch(stderrTxt); m != nil && len(m[1]) <= 8 && final(outC, i) && addressSpaceRestarts < 8 {
+				// the runtime could not get a block of a few MB: the child had used up the address
+				// space the harness grants it (RLIMIT_AS); the input is fine alone and in context
+				addressSpaceRestarts++
+				r.Count("robust.child_restarts_address_space_of_the_harness_limit", 1)
+				start = i + 1
+				continue
 			} else {
 				r.Count("robust.deaths_not_reproduced", 1)
 				r.Inconclusive(fmt.Sprintf("a robustness child died (%s: %s) while decoding input %x… but the death did not repeat, neither alone nor after the 300 inputs before it",
